@@ -567,7 +567,8 @@ pub fn run_program(w: &mut dyn Write, r: &mut Rng, pi: usize, cname: &str, cfg: 
         cx.run_case(w, r, "lookup-multiplicity", &mk(0, vec![(trow, cm, newm)]));
         let ct = if r.coin() { LookupTableGate::wire_ith_looked_inp(ts) } else { LookupTableGate::wire_ith_looked_out(ts) };
         cx.run_case(w, r, "lookup-table-cell", &mk(0, vec![(trow, ct, (m0[trow][ct].to_canonical_u64() + 1) % P)]));
-        // wrong pair hidden by a shifted running sum (the start value of the sum is adversarial)
+        // wrong pair hidden by a shifted running sum (the start value of the sum is adversarial): regression test of the
+        // defect fixed in repo commit bfbd0f1
         let k = strategy_knobs("sldc-shift", r, nch);
         let cor = Corruption { classes: vec![(row, co, (old_out + 1) % P)], ..Default::default() };
         if let Ok((part, m, pis)) = corrupted_assignment(&circ, p, &cor) {
